@@ -127,7 +127,7 @@ theorem concat_get (x0 : COO α) (rest : List (COO α)) (axis : Nat)
     refine ⟨hklen, ?_, ?_⟩
     · -- the source index is inside the member
       have hys := hshape' y hmem
-      rw [InB_iff_getD] at hj ⊢
+      rw [InB_iff_getD_j] at hj ⊢
       have hyl : y.shape.length = x0.shape.length := by
         have := congrArg List.length hys
         simpa using this
@@ -207,7 +207,7 @@ theorem stack_get (x0 : COO α) (rest : List (COO α)) (axis : Nat)
   have hil : axis ≤ i.length := by rw [InB_length hi]; exact hax
   refine ⟨?_, ?_⟩
   · simp only [stackCore, List.length_cons]
-    exact (InB_insertAt i x0.shape axis k _ hax).mpr ⟨hk, hi⟩
+    exact (InB_insertAt_j i x0.shape axis k _ hax).mpr ⟨hk, hi⟩
   · have hgo := stackGo_lookup axis x0 (x0 :: rest) 0 x0.fill i k hlen hil (Nat.zero_le _)
       (by simp only [List.length_cons]; omega)
     have hmem : (x0 :: rest).getD k x0 ∈ x0 :: rest := by
@@ -232,7 +232,7 @@ theorem stack_index_form (s : List Nat) (axis m : Nat) (hax : axis ≤ s.length)
   have h1 := (insertAt_eraseIdx j axis hl).symm
   refine ⟨h1, ?_⟩
   rw [h1] at hj
-  exact (InB_insertAt _ s axis _ m hax).mp hj
+  exact (InB_insertAt_j _ s axis _ m hax).mp hj
 
 
 
@@ -279,10 +279,10 @@ theorem diagonal_get [Add α] [DecidableEq α] (x : COO α) (offset : Int) (a1 a
     rw [InB_length hj]; simp [gather]
   have hjt : (j.getD (diagOthers x.shape.length a1 a2).length 0 : Int) < (d : Int) - (offset.natAbs : Int) := by
     have := InB_getD_lt hj (a := (gather x.shape (diagOthers x.shape.length a1 a2)).length) (by simp)
-    rw [getD_append_last, gather_length] at this
+    rw [getD_append_last, gather_length_j] at this
     omega
   have hsrc : InB (diagSrc x.shape.length a1 a2 offset j) x.shape := by
-    rw [InB_iff_getD]
+    rw [InB_iff_getD_j]
     refine ⟨diagSrc_length _ _ _ _ _, fun a ha => ?_⟩
     by_cases ha1 : a = a1
     · subst ha1; rw [diagSrc_a1 _ _ _ _ _ h1, hd1]; omega
@@ -327,7 +327,7 @@ theorem diagonal_get [Add α] [DecidableEq α] (x : COO α) (offset : Int) (a1 a
     simp only [decide_eq_true_eq] at hP
     show InB (gather e0.1 (diagAxes x.shape.length a1 a2 offset)) _
     rw [diagAxes, gather_append, InB_append _ _ _ _ (by simp [gather])]
-    refine ⟨InB_gather _ _ hin _ (fun a ha => (mem_diagOthers.mp ha).1), ?_⟩
+    refine ⟨InB_gather_j _ _ hin _ (fun a ha => (mem_diagOthers.mp ha).1), ?_⟩
     have b1 := InB_getD_lt hin h1
     have b2 := InB_getD_lt hin h2
     simp only [gather, List.map_cons, List.map_nil, InB_cons, InB_nil, and_true]
